@@ -1,13 +1,12 @@
 # Known findings for C20 (formatter).  The five crash defects (parser panics on `function`/`import`
 # /end-of-input, diagnostic-range underflow / out-of-bounds, raw tabs and newlines sent to the
-# printer) were repaired by fix: commits and have no classifier.
+# printer) and, since round 4, all known layout defects (a second pass re-laying-out the text) were
+# repaired by fix: commits and have no classifier.
 #
-# What remains are (1) first-pass outputs that do not parse any more (formatter defects owned by
-# C19, "Formatting preserves the program", repaired there), (2) second passes that re-lay-out the
-# text without changing its tokens (the reason `--conv-limit` exists), (3) limits of the layout
-# engine on deep nesting.  Every classifier looks at the observable of ONE defect; a second pass
-# that changes the token stream, fails to parse, panics or does not settle within 4 passes is
-# never classified.
+# What remains are (1) symptom classifiers of first-pass outputs that did not parse any more
+# (formatter defects owned by C19, all repaired there; no finding line refers to them any longer)
+# and (3) limits of the layout engine on deep nesting.  A second pass that changes anything, fails
+# to parse, panics or does not settle is never classified.
 import re
 
 
@@ -166,140 +165,12 @@ def c20_local_multibind_trailing_comma(op, impl, model, args):
 # ------------------------------------------------------------------------------------------------
 # (2) second pass keeps every token but lays the text out differently
 #
-# The differing regions (line hunks) of first-pass and second-pass output are examined one by one;
-# each known defect has a predicate on a hunk.  A case is attributed to a finding only if EVERY hunk
-# is explained by one of these predicates (and at least one by the finding's own), the code tokens
-# are unchanged and the text settles within 4 passes.  A re-layout with any other shape (for
-# instance blank lines appearing between members) is not classified.
+# Round 4: every layout defect that had a classifier here (blank line after `(`, comments without a
+# printer slot, re-break at the width limit, one-line group around a forced line break, dangling
+# `)`) has been repaired in the formatter (see the `fixed` C20 lines of known_findings.jsonl), and so
+# have the four families the thorough tier had turned up.  The hunk classifiers are gone with them:
+# ANY second pass that differs from the first is a VIOLATION again.
 # ------------------------------------------------------------------------------------------------
-import difflib
-
-_COMMENT = re.compile(r"//|#|/\*|\*/|^\s*\*(\s|$)")
-_STMT_INLINE = re.compile(r"^\s*\S.*\b(local|assert)\b")
-
-
-def _width(line):
-    return len(line.replace("\t", "   "))
-
-
-def _hunks(once, twice):
-    a, b = once.split("\n"), twice.split("\n")
-    out = []
-    for tag, i1, i2, j1, j2 in difflib.SequenceMatcher(None, a, b, autojunk=False).get_opcodes():
-        if tag != "equal":
-            out.append((a[i1 - 1] if i1 > 0 else "", a[i1:i2], b[j1:j2], a[i2] if i2 < len(a) else ""))
-    return out
-
-
-def _h_comment(h):
-    if any(_COMMENT.search(l) for l in h[1] + h[2]):
-        return True
-    # blank lines appearing/disappearing next to a comment line
-    return all(l.strip() == "" for l in h[1] + h[2]) and (_COMMENT.search(h[0]) or _COMMENT.search(h[3])) is not None
-
-
-def _indent(l):
-    return len(l) - len(l.lstrip())
-
-
-def _h_width(h):
-    """a line at the column limit, or a soft (space-or-newline) break taken by the first pass because
-    the rest of the line was too wide: `f(a, b,` newline `c)(` or `{ a: 1` newline `} & [` with the continuation NOT indented; the
-    next pass joins the two lines again (nothing else changes)"""
-    if any(_width(l) >= 96 for l in h[1] + h[2]):
-        return True
-    ja = re.sub(r",(?=[\])}])", "", _squash(" ".join(h[1])))
-    jb = re.sub(r",(?=[\])}])", "", _squash(" ".join(h[2])))
-    soft = any(a.strip() != "" and b.strip() != "" and _indent(b) <= _indent(a) for a, b in zip(h[1], h[1][1:]))
-    return ja == jb and soft and len(h[2]) < len(h[1])
-
-
-def _unclosed_inline_open(line):
-    """the line opens a bracket that it does not close and puts content right after it"""
-    toks, _ = _scan(line)
-    depth = []
-    for k, t in enumerate(toks):
-        if t in "([{" and len(t) == 1:
-            depth.append(k)
-        elif t in ")]}" and len(t) == 1 and depth:
-            depth.pop()
-    return any(k + 1 < len(toks) for k in depth)
-
-
-def _h_inline_group(h):
-    """first pass left a bracket group in single-line form (`[ assert c;`, `f(|||`, `g(p = {`,
-    `{ a(`) although a child forces a line break inside it; the next pass expands the group"""
-    return any(_unclosed_inline_open(l) for l in h[1]) and len(h[2]) >= len(h[1])
-
-
-def _h_dangling_rparen(h):
-    """`f(` newline `)` or `f(a` newline `)` joined into one line by the next pass (nothing else changes)"""
-    ja = re.sub(r",(?=[\])}])", "", _squash(" ".join(h[1])))
-    jb = re.sub(r",(?=[\])}])", "", _squash(" ".join(h[2])))
-    return ja == jb and any(l.strip().startswith(")") for l in h[1]) and len(h[2]) < len(h[1])
-
-
-def _h_blank_after_lparen(h):
-    return all(l.strip() == "" for l in h[1] + h[2]) and h[0].rstrip().endswith("(")
-
-
-def _h_closing_side(h):
-    """the closing brackets of a group expanded by `_h_inline_group` in an earlier hunk: `})(` becomes
-    `},` newline `)(` (never sufficient on its own: no finding claims a case through this predicate)"""
-    lines = h[1] + h[2]
-    return bool(h[1]) and all(l.strip() != "" and re.fullmatch(r"[\s()\[\]{},;]*", l) for l in lines)
-
-
-_HUNK_PREDICATES = [_h_comment, _h_width, _h_inline_group, _h_dangling_rparen, _h_blank_after_lparen, _h_closing_side]
-
-
-def _relayout(op, impl, model, own):
-    r = _idem(op, impl)
-    if r is None or r[0] == r[1] or r[2] > 4:
-        return False
-    same, ca, cb = _same_tokens(r[0], r[1])
-    if not same:
-        return False
-    # Lean's verdict on the REAL lexer's lexemes of both passes: FmtSink.sameTokCB = equal sequences of
-    # non-trivia lexemes (kind and text) after dropping a `,` that directly precedes a closing bracket
-    # (Props/C20: same_tokens_check_sound, same_tokens_mod_comma_sound).  The scanner above is only a
-    # pre-filter; when Lean says the code tokens differ the case is never a layout finding.
-    # Absent for fmt.main cases (no lexemes shipped there).
-    if isinstance(model, dict) and model.get("_same_code_tokens_mod_trailing_comma") is False:
-        return False
-    hs = _hunks(r[0], r[1])
-    return bool(hs) and all(any(p(h) for p in _HUNK_PREDICATES) for h in hs) and any(own(h) for h in hs)
-
-
-def c20_second_pass_blank_line_after_lparen(op, impl, model, args):
-    """a blank line between `(` and the first argument is kept by the first pass and changed by the next"""
-    return _relayout(op, impl, model, _h_blank_after_lparen)
-
-
-def c20_second_pass_moves_comment(op, impl, model, args):
-    """a comment the printers have no slot for (after `{`/`[` on the same line, between `assert`/`local`
-    and its body, after the last comprehension spec, inside parentheses) is moved or dropped by the
-    next pass; the code tokens are unchanged"""
-    return _relayout(op, impl, model, _h_comment)
-
-
-def c20_second_pass_rebreaks_at_width_limit(op, impl, model, args):
-    """a line at the 100-column limit is broken differently on the formatter's own output"""
-    return _relayout(op, impl, model, _h_width)
-
-
-def c20_second_pass_expands_inline_group(op, impl, model, args):
-    """`[ assert c; v ]`, `f(|||..|||)`, `g(p = {` newline `})`: a child with a forced line break sits in a
-    group the first pass printed in single-line form; the next pass prints the group multi-line"""
-    return _relayout(op, impl, model, _h_inline_group)
-
-
-def c20_second_pass_joins_dangling_rparen(op, impl, model, args):
-    """`x(` newline `)` (empty argument list) or `f(a` newline `)` (blank lines before `)` in the source)
-    printed by the first pass becomes `x()` / `f(a)` on the next"""
-    return _relayout(op, impl, model, _h_dangling_rparen)
-
-
 # ------------------------------------------------------------------------------------------------
 # (3) nesting limits
 # ------------------------------------------------------------------------------------------------
